@@ -353,6 +353,97 @@ impl<A: TreeApi> TreeSut<A> {
     }
 }
 
+/// All height-balanced binary tree shapes with at most `max_nodes` nodes, as nested options.
+#[derive(Clone)]
+pub enum Shape {
+    Nil,
+    Node(Box<Shape>, Box<Shape>),
+}
+
+fn shapes_of_height(h: usize, max_nodes: usize, memo: &mut Vec<Option<Vec<(Shape, usize)>>>) -> Vec<(Shape, usize)> {
+    if let Some(Some(v)) = memo.get(h) {
+        return v.clone();
+    }
+    let v: Vec<(Shape, usize)> = if h == 0 {
+        vec![(Shape::Nil, 0)]
+    } else {
+        let a = shapes_of_height(h - 1, max_nodes, memo);
+        let b = if h >= 2 { shapes_of_height(h - 2, max_nodes, memo) } else { vec![] };
+        let mut out = vec![];
+        let mut push = |l: &(Shape, usize), r: &(Shape, usize)| {
+            if l.1 + r.1 + 1 <= max_nodes {
+                out.push((Shape::Node(Box::new(l.0.clone()), Box::new(r.0.clone())), l.1 + r.1 + 1));
+            }
+        };
+        for l in &a {
+            for r in &a {
+                push(l, r);
+            }
+            for r in &b {
+                push(l, r);
+            }
+        }
+        for l in &b {
+            for r in &a {
+                push(l, r);
+            }
+        }
+        out
+    };
+    while memo.len() <= h {
+        memo.push(None);
+    }
+    memo[h] = Some(v.clone());
+    v
+}
+
+/// Keys (in-order: 2, 4, 6, …) of a shape in level order: inserting them in this order reproduces the
+/// shape without a single rotation.
+fn level_order_keys(s: &Shape) -> Vec<i128> {
+    fn number(s: &Shape, next: &mut i128, out: &mut Vec<(usize, i128)>, depth: usize) {
+        if let Shape::Node(l, r) = s {
+            number(l, next, out, depth + 1);
+            out.push((depth, *next));
+            *next += 2;
+            number(r, next, out, depth + 1);
+        }
+    }
+    let mut v = vec![];
+    let mut next = 2;
+    number(s, &mut next, &mut v, 0);
+    v.sort_by_key(|(d, k)| (*d, *k));
+    v.into_iter().map(|(_, k)| k).collect()
+}
+
+impl<A: TreeApi> TreeSut<A> {
+    /// every AVL shape with at most `max_nodes` nodes x every single insertion (into every gap) and
+    /// removal (of every key), plus a lookup of every key
+    pub fn shape_cases(&self, max_nodes: usize) -> Vec<(Vec<Op>, Vec<Op>)> {
+        let mut memo = vec![];
+        let mut cases = vec![];
+        for h in 0..=6 {
+            for (sh, n) in shapes_of_height(h, max_nodes, &mut memo) {
+                let keys = level_order_keys(&sh);
+                let mut build = vec![Op::new("init", &[self.init_cap as i128])];
+                for k in &keys {
+                    build.push(Op::new("ins", &[*k, self.ins_val(*k)]));
+                }
+                let mut probes = vec![];
+                for g in 0..=n {
+                    probes.push(Op::new("ins", &[(2 * g + 1) as i128, 1]));
+                }
+                for k in &keys {
+                    probes.push(Op::new("rem", &[*k]));
+                    probes.push(Op::new("get", &[*k]));
+                }
+                probes.push(Op::new("low", &[]));
+                cases.push((build, probes));
+            }
+        }
+        cases
+    }
+}
+
 impl<A: TreeApi> Sut for TreeSut<A> {
     fn cfg_line(&self) -> String {
         let (ks, ka, ksg) = A::key();
